@@ -43,7 +43,8 @@ integer_re = re.compile(
         0(_?0)* # decimal zero
     )
     """,
-    re.IGNORECASE | re.VERBOSE,
+    # ASCII: \d must not match digits of other scripts
+    re.IGNORECASE | re.VERBOSE | re.ASCII,
 )
 float_re = re.compile(
     r"""
@@ -56,7 +57,8 @@ float_re = re.compile(
         \.(\d+_)*\d+  # required fractional part
     )
     """,
-    re.IGNORECASE | re.VERBOSE,
+    # ASCII: \d must not match digits of other scripts
+    re.IGNORECASE | re.VERBOSE | re.ASCII,
 )
 
 # internal the tokens and keep references to them
